@@ -529,3 +529,10 @@ Proof.
   cbn zeta. split; [reflexivity|].
   apply (run_exec_all_invariants _ empty_db db_wf_empty sets_ok_empty).
 Qed.
+
+(* ---------------------------------------------------------------- one invariant for all families (Mem/AllInv.v) *)
+Require Mem.AllInv.
+Theorem C11_sets_ok_in_all_ok : forall d now nowms args hint,
+  AllInv.all_ok d -> AllInv.all_ok (snd (exec d now nowms args hint)).
+Proof. exact AllInv.exec_all_ok. Qed.
+Print Assumptions C11_sets_ok_in_all_ok.
